@@ -152,9 +152,14 @@ def changeAccepted (c : ParamChange) : Bool :=
   (match c.minValidators with | some v => decide (0 < v) | none => true) &&
   (match c.maxValidators with | some v => decide (0 < v) | none => true)
 
+/-- `changeParameters`: the change must be sane and the resulting parameters must pass
+`ConsensusParameters.SanityCheck` (no unsafe debug flag; `DebugDontBlameOasis` is assumed off). -/
+def changeAcceptedFor (p : Params) (c : ParamChange) : Bool :=
+  changeAccepted c && !(p.bypassStake || p.weakAlpha)
+
 /-- `changeParameters` with `apply = true`: a rejected proposal changes nothing. -/
 def applyChange (p : Params) (c : ParamChange) : Params :=
-  if changeAccepted c then
+  if changeAcceptedFor p c then
     { p with minValidators := c.minValidators.getD p.minValidators
              maxValidators := c.maxValidators.getD p.maxValidators
              dist := c.dist.getD p.dist }
